@@ -330,6 +330,25 @@ def explore_registry(run, n_random):
             seen[e.signal] = nm
     run.count("Event() with attribute-like names")
     run.case(cj, nontrivial=True)
+    # a registry with several hundred names: Event(signal=<number>) for numbers that are equal to, but not the same int
+    # object as, the registered value (computed, parsed, received over the wire)
+    big = ["BIG_%d_%d" % (run.seed, k) for k in range(300)]
+    numbers = {}
+    for nm in big:
+        numbers[nm] = mevent.Event(signal=nm).signal
+    cj = {"what": "event-from-number-above-256"}
+    for nm in rng.sample(big, 40) + big[-3:]:
+        n = int(str(numbers[nm]))          # an equal int, not the registry's own object
+        try:
+            e = mevent.Event(signal=n)
+            got = (e.signal, e.signal_name)
+        except Exception as ex:  # noqa
+            got = "%s: %s" % (type(ex).__name__, ex)
+        if got != (numbers[nm], nm):
+            run.violate("C25/event-from-number", "Event(signal=%d) (the number of %s, as a freshly computed int) gives %r" % (n, nm, got), cj)
+            break
+    run.count("Event(signal=number) with numbers above 256")
+    run.case(cj, nontrivial=True)
     # attribute access of a name that is a dict method
     reg = mevent.SignalSource()
     cj = {"what": "reserved-attribute-name"}
@@ -356,6 +375,16 @@ def make_delegating_class():
             if name.startswith("__") or self.__dict__.get("parent") is None:
                 raise AttributeError(name)
             return getattr(self.__dict__["parent"], name)
+    return Obj
+
+
+def make_falsy_class():
+    """instances that are falsy (an empty container-like object)"""
+    class Obj(metaclass=mtsa.MetaThreadSafeAttributes):
+        _attributes = ["x"]
+
+        def __len__(self):
+            return 0
     return Obj
 
 
@@ -512,7 +541,10 @@ def explore_instances(run, n_random):
     for _ in range(n_random):
         by_value = rng.random() < 0.4
         delegating = not by_value and rng.random() < 0.3
-        Obj = make_delegating_class() if delegating else make_tsa_class(by_value)
+        falsy = not by_value and not delegating and rng.random() < 0.25
+        Obj = make_delegating_class() if delegating else (make_falsy_class() if falsy else make_tsa_class(by_value))
+        if falsy:
+            run.count("instances are falsy (__len__ == 0)")
         run.count("instances %s" % ("forward unknown attributes to the first instance (__getattr__)" if delegating else
                                     ("compare by value (all equal)" if by_value else "compare by identity")))
         insts, model = [], {}
@@ -597,6 +629,45 @@ def explore_tsa_operators(run, n_random):
         elif all(fin) and val not in serial:
             run.violate("C27/not-serializable", "from %r, threads %s: final value %r is not the result of any serial order (possible: %s)"
                         % (v0, progs, val, sorted(serial, key=repr)[:6]), cj)
+        run.case(cj, nontrivial=True)
+
+
+def explore_tsa_two_attributes(run, n_random):
+    """C27 with a second thread-safe attribute read inside the right-hand side of an update (in a called function, on its own
+    source line): lock-granularity schedules; every thread finishes and the value is that of a serial order"""
+    rng = run.rng
+    for _ in range(n_random):
+        with dsched.PatchedLocks(mtsa):
+            class Obj(metaclass=mtsa.MetaThreadSafeAttributes):
+                _attributes = ["x", "y"]
+            o = Obj()
+            o.y = rng.randint(1, 5)
+            yv = o.y
+            nt = rng.randint(2, 3)
+            progs = [[rng.choice(["x+=y()", "x+=1", "x+=y()"]) for _ in range(rng.randint(1, 2))] for _ in range(nt)]
+
+            def mk(p):
+                def f():
+                    for st in p:
+                        if st == "x+=1":
+                            tsa_stmts.do_aug(o, 1)
+                        else:
+                            tsa_stmts.aug_x_by_y(o)
+                return f
+            seed = rng.randrange(1 << 30)
+            order, errors, outcome, fin = run_threads([mk(p) for p in progs], dsched.random_chooser(random.Random(seed)))
+            val = o.__dict__.get(getattr(Obj.__dict__["x"], "_key", None), None)
+        want = sum(1 if st == "x+=1" else yv for p in progs for st in p)
+        cj = {"what": "tsa-two-attributes", "progs": progs, "y": yv, "seed": seed, "schedule": order}
+        run.count("update whose right-hand side reads another thread-safe attribute")
+        run.traces_validated += 1
+        if errors:
+            run.violate("C27/error", "a statement using the attribute failed: %s" % errors[:2], cj)
+        elif not all(fin):
+            run.violate("C27/blocked", "threads %s: %s never finished (outcome %s): after `o.x += g(o)` (g reads o.y) the attribute's lock stays held"
+                        % (progs, [i for i, f in enumerate(fin) if not f], outcome), cj)
+        elif val is not None and val != want:
+            run.violate("C27/not-serializable", "threads %s with y=%d: final x=%r, every serial order gives %d" % (progs, yv, val, want), cj)
         run.case(cj, nontrivial=True)
 
 
